@@ -59,6 +59,10 @@ pub enum Family {
     Rational,
     /// exp(-a x) cos(b x + phi)
     PhaseCos,
+    /// p0 + p1 x + p2 x^2 + p3 x^3 (arity 4: argument order matters in every position)
+    Cubic4,
+    /// exp(-(p0 + p1 x)) * (p2 + p3 x + p4 x^2) (arity 5)
+    ExpQuad5,
     /// 1
     Const,
     /// x
@@ -71,10 +75,12 @@ impl Family {
             Family::ExpTau | Family::ExpRate | Family::Rational => 1,
             Family::Gauss | Family::DampCos | Family::DampSin => 2,
             Family::PhaseCos => 3,
+            Family::Cubic4 => 4,
+            Family::ExpQuad5 => 5,
             Family::Const | Family::Linear => 0,
         }
     }
-    pub const PARAMETRIC: [Family; 7] = [
+    pub const PARAMETRIC: [Family; 9] = [
         Family::ExpTau,
         Family::ExpRate,
         Family::Gauss,
@@ -82,6 +88,8 @@ impl Family {
         Family::DampSin,
         Family::Rational,
         Family::PhaseCos,
+        Family::Cubic4,
+        Family::ExpQuad5,
     ];
 }
 
